@@ -124,9 +124,6 @@ theorem request_lists_stored (t : Spec.St) (q : Request) (hc : t.cons q.app = tr
   simp only [Spec.step, hc, hq, serviceQuery, dictSearch, hf, ho]
   rfl
 
-theorem mem_listing (t : Spec.St) (r : Record) : r ∈ Spec.listing t ↔ ∃ i, i < t.next ∧ t.objs i = some r := by
-  simp only [Spec.listing, List.mem_filterMap, List.mem_range]
-
 /-- an accepted add hands out the next identifier and stores the object as given (unless the reactive maintenance
 run of that very call already finds its validity lapsed) -/
 theorem add_stores (t : Spec.St) (app : Nat) (ts : Int) (loc : Loc) (obj : JVal) (validity : Int)
@@ -143,24 +140,6 @@ theorem add_stores (t : Spec.St) (app : Nat) (ts : Int) (loc : Loc) (obj : JVal)
     · exact Or.inr e
     · left; simp [e]
   · exact ⟨rfl, rfl, Or.inl (by simp [Spec.setAt])⟩
-
-theorem run_keeps (ops : List Op) : ∀ (t : Spec.St) (i : Nat) (r : Record), t.objs i = some r → i < t.next →
-    (∀ op ∈ ops, op.targets i = false) → expired (nowIts (Spec.run t ops).1.utcMs) r = false →
-    (Spec.run t ops).1.objs i = some r := by
-  induction ops with
-  | nil => intro t i r hi _ _ _; exact hi
-  | cons op ops ih =>
-    intro t i r hi hlt hnt hne
-    simp only [Spec.run] at hne ⊢
-    have hnow : expired (nowIts t.utcMs) r = false := by
-      cases hx : expired (nowIts t.utcMs) r with
-      | false => rfl
-      | true =>
-        have hmono := Int.le_trans (spec_step_utc_mono t op) (spec_run_utc_mono ops (Spec.step t op).1)
-        rw [expired_mono _ _ r (nowIts_mono _ _ hmono) hx] at hne
-        cases hne
-    exact ih _ i r (spec_step_keeps t op i r hi hlt (hnt op (by simp)) hnow)
-      (Nat.lt_of_lt_of_le hlt (spec_step_next_mono t op)) (fun o ho => hnt o (List.mem_cons_of_mem _ ho)) hne
 
 /-- **added is returned until deleted or expired**: a stored object is returned, exactly as stored (application id,
 timestamp, location, content, validity), by every later unfiltered request of a registered consumer for its type,
@@ -211,48 +190,6 @@ theorem update_replaces_only_content (t : Spec.St) (app id : Nat) (obj : JVal)
         simp only [Spec.step, hp, hr, hty, Spec.setAt, Bool.not_true, Bool.false_eq_true, if_false, if_true]
         exact ⟨trivial, fun j hj => by simp [hj], trivial, trivial, trivial⟩
       · simp [Spec.step, hp, hr, hty] at h
-
-theorem none_stays_step (t : Spec.St) (op : Op) (i : Nat) (hi : t.objs i = none) (hlt : i < t.next) :
-    (Spec.step t op).1.objs i = none := by
-  cases op with
-  | add app ts loc obj validity =>
-    have hn : ¬ i = t.next := by omega
-    simp only [Spec.step]
-    repeat' split
-    all_goals (first | exact hi | simp only [Spec.collect, Spec.setAt, hn, if_false, hi])
-  | update app id obj =>
-    simp only [Spec.step]
-    repeat' split
-    all_goals first
-      | exact hi
-      | (next r hr _ =>
-          by_cases e : i = id
-          · subst e; rw [hi] at hr; cases hr
-          · simp only [Spec.setAt, e, if_false, hi])
-  | delete app id =>
-    simp only [Spec.step]
-    repeat' split
-    all_goals first
-      | exact hi
-      | (by_cases e : i = id
-         · simp [Spec.setAt, e]
-         · simp only [Spec.setAt, e, if_false, hi])
-  | maintain => simp only [Spec.step, Spec.collect, hi]
-  | regProvider app perms => simp only [Spec.step]; split <;> exact hi
-  | deregProvider app => simp only [Spec.step]; split <;> exact hi
-  | regConsumer app perms => simp only [Spec.step]; split <;> exact hi
-  | deregConsumer app => simp only [Spec.step]; split <;> exact hi
-  | request q => exact hi
-  | advance ms => exact hi
-
-/-- an identifier that was handed out and holds nothing never holds anything again (identifiers are not reused) -/
-theorem none_stays (ops : List Op) : ∀ (t : Spec.St) (i : Nat), t.objs i = none → i < t.next →
-    (Spec.run t ops).1.objs i = none := by
-  induction ops with
-  | nil => intro t i hi _; exact hi
-  | cons op ops ih =>
-    intro t i hi hlt
-    exact ih _ i (none_stays_step t op i hi hlt) (Nat.lt_of_lt_of_le hlt (spec_step_next_mono t op))
 
 /-- **deleted is never returned**: after a successful delete the identifier holds nothing, whatever follows;
 by `returned_is_stored` no answer can contain it -/
@@ -311,40 +248,6 @@ theorem unregistered_refused_without_effect (t : Spec.St) (app : Nat) :
   · intro hc q hq
     subst hq
     simp [Spec.step, hc, requestRefusal]
-
-theorem id_out (t : Spec.St) (op : Op) (k : Nat) (h : (Spec.step t op).2 = .id k) :
-    k = t.next ∧ (Spec.step t op).1.next = t.next + 1 := by
-  cases op with
-  | add app ts loc obj validity =>
-    cases hp : t.prov app with
-    | false => simp [Spec.step, hp] at h
-    | true =>
-      by_cases hg : t.monoMs - t.lastGc ≥ trashIntervalMs
-      · simp only [Spec.step, hp, hg, Bool.not_true, Bool.false_eq_true, if_false, if_true] at h ⊢
-        injection h with h; exact ⟨h.symm, trivial⟩
-      · simp only [Spec.step, hp, hg, Bool.not_true, Bool.false_eq_true, if_false] at h ⊢
-        injection h with h; exact ⟨h.symm, trivial⟩
-  | update app id obj =>
-    exfalso
-    simp only [Spec.step] at h
-    split at h
-    · cases h
-    · split at h
-      · cases h
-      · split at h <;> cases h
-  | delete app id =>
-    exfalso
-    simp only [Spec.step] at h
-    split at h
-    · cases h
-    · split at h <;> cases h
-  | regProvider app perms => simp only [Spec.step] at h; split at h <;> cases h
-  | deregProvider app => simp only [Spec.step] at h; split at h <;> cases h
-  | regConsumer app perms => simp only [Spec.step] at h; split at h <;> cases h
-  | deregConsumer app => simp only [Spec.step] at h; split at h <;> cases h
-  | request q => simp only [Spec.step] at h; cases h
-  | maintain => simp only [Spec.step] at h; cases h
-  | advance ms => simp only [Spec.step] at h; cases h
 
 /-- identifiers handed out by the accepted adds of a history -/
 def handedOut : List Spec.Out → List Nat
